@@ -167,6 +167,67 @@ def family(name, T):
     return "core"
 
 
+def values_agree(out, elem, vals):
+    """c'[i] == coerce_value(T, c[i]) wherever the input element is not null (nulls stay null)"""
+    try:
+        got = list(out)
+    except Exception:  # noqa: BLE001
+        return True
+    for g, (k, w), x in zip(got, elem, vals):
+        if isnull(x):
+            continue            # (whether a null stays null depends on the type's ability to hold one)
+        if k != "ok":
+            continue
+        try:
+            if isnull(w) and isnull(g):
+                continue
+            same = (g == w)
+            if hasattr(same, "all"):
+                same = bool(same.all())
+            if not same and str(g) != str(w):
+                return False
+        except Exception:  # noqa: BLE001
+            if str(g) != str(w):
+                return False
+    return True
+
+
+def typed_sources():
+    """containers that already have a native dtype (the object-pool containers above are all of dtype object)"""
+    out = [("datetime64+NaT", pd.Series(pd.to_datetime(["2020-01-01 00:00", None, "2021-06-30 12:00"], format="%Y-%m-%d %H:%M"))),
+           ("timedelta64+NaT", pd.Series(pd.to_timedelta(["1D", None, "90min"]))),
+           ("int64", pd.Series([1, 0, -3], dtype="int64")), ("float64+NaN", pd.Series([1.5, float("nan"), 2.0])),
+           ("bool", pd.Series([True, False])), ("uint8", pd.Series([0, 255], dtype="uint8"))]
+    for nm, mk in (("Int64+NA", lambda: pd.Series([1, None, 3], dtype="Int64")), ("string+NA", lambda: pd.Series(["7", None, "x"], dtype="string")),
+                   ("boolean+NA", lambda: pd.Series([True, None], dtype="boolean")),
+                   ("datetime64[UTC]", lambda: pd.Series(pd.to_datetime(["2020-01-01", None], utc=True)))):
+        try:
+            out.append((nm, mk()))
+        except Exception:  # noqa: BLE001
+            pass
+    return out
+
+
+def run_typed_sources(rep):
+    """every registered dtype x every natively typed container (series and index)"""
+    dts = pandas_dtypes()
+    for name, T in sorted(dts.items()):
+        fam = family(name, T)
+        for src_name, src in typed_sources():
+            for cont in ("series", "index"):
+                vals = list(src)
+                labels = [f"r{i}" for i in range(len(vals))]
+                try:
+                    obj = src.set_axis(labels) if cont == "series" else pd.Index(src.dropna())
+                except Exception:  # noqa: BLE001
+                    continue
+                if cont == "index":
+                    vals = list(obj)
+                    labels = [f"r{i}" for i in range(len(vals))]
+                case = {"kind": "typed-source", "dtype": name, "source": src_name, "container": cont, "vals": [repr(v) for v in vals]}
+                judge_trial(rep, case, name, T, fam, obj, vals, labels, cont)
+
+
 def judge_trial(rep, case, name, T, fam, obj, vals, labels, cont):
     """one coercion of one container: contract clauses with the dtype's own `coerce_value` as element oracle"""
     from pandera import errors
@@ -196,6 +257,9 @@ def judge_trial(rep, case, name, T, fam, obj, vals, labels, cont):
                 what = "check-fails-on-coerced-data"
             elif any(k == "fail" and not isnull(x) for (k, _), x in zip(elem, vals)):
                 what = "container-coerced-an-element-coerce_value-rejects"
+            elif (fam == "core" or fam.startswith("parametrised")) and case.get("kind") != "typed-source" \
+                    and not values_agree(out, elem, vals):
+                what = "values-differ-from-coerce_value"
             else:
                 try:
                     again = T.try_coerce(out)
@@ -214,6 +278,12 @@ def judge_trial(rep, case, name, T, fam, obj, vals, labels, cont):
                 what = "failure-cases-differ-from-uncoercible-elements"
         else:
             what = kind
+    if what and case.get("kind") == "typed-source" and what.split(":")[0] in (
+            "container-coerced-an-element-coerce_value-rejects", "failure-cases-differ-from-uncoercible-elements"):
+        # natively typed sources are judged on the container's own clauses (shape, labels, check on the result, idempotence,
+        # error class); how numpy's casts between native dtypes relate to the scalar conversions is outside this sweep
+        rep.count("typed-source:scalar-oracle-clause-not-judged")
+        return
     if what:
         rep.property_failure(case, f"{name}: {what}", region=f"K_C10_{fam}:{what.split(':')[0]}")
 
@@ -272,13 +342,17 @@ def run_parametrised(rep, tier, rng):
     try:
         targets += [("DateTime[UTC]", pe.DateTime(tz="UTC"), [pd.Timestamp("2020-01-01"), "2020-01-02", "x", None,
                                                               pd.Timestamp("2020-01-01", tz="Europe/Berlin")]),
-                    ("Decimal(6,2)", pe.Decimal(6, 2), [1, "2.5", "x", None, 1.25, "12345.678"])]
+                    ("Decimal(6,2)", pe.Decimal(6, 2), [1, "2.5", "x", None, 1.25, "12345.678"]),
+                    ("DateTime[format=%d/%m/%Y]", pe.DateTime(to_datetime_kwargs={"format": "%d/%m/%Y"}),
+                     ["01/02/2020", "2020-02-01", "31/12/2019", None, "13/01/2021"]),
+                    ("DateTime[unit=s]", pe.DateTime(to_datetime_kwargs={"unit": "s"}), [1, 86400, None, 1600000000])]
     except Exception:  # noqa: BLE001
         pass
     trials = 12 if tier == "quick" else 300
     for name, T, pool in targets:
         # (the recorded category region is about a Category *without* declared categories only)
-        fam = "category-declared" if name.startswith("Category") else "parametrised-" + family(name, T)
+        fam = "category-declared" if name.startswith("Category") else \
+            "parametrised-tz-aware" if name == "DateTime[UTC]" else "parametrised-" + family(name, T)
         for _ in range(trials):
             n = rng.randint(0, 4)
             vals = [rng.choice(pool) for _ in range(n)]
@@ -442,12 +516,14 @@ def run(tier, replay=None):
         else:
             rep.notes.append("registry / polars replays are regenerated from the seed")
             run_registry(rep, tier, rng)
+            run_typed_sources(rep)
             run_parametrised(rep, tier, rng)
             run_polars(rep, tier, rng)
         return rep.finish(rule="replay")
     n = 700 if tier == "quick" else 20000
     run_abs(rep, [c for c in corpus_cases(PROP) if c.get("kind") == "abs"] + [gen_abs_case(rng) for _ in range(n)])
     run_registry(rep, tier, rng)
+    run_typed_sources(rep)
     run_parametrised(rep, tier, rng)
     run_polars(rep, tier, rng)
     run_polars_container(rep)
